@@ -20,6 +20,7 @@ def run(chk):
     A = a64common.load(chk)
     a64vec.run(chk, A)
     a64vec.run_db_q(chk)
+    a64vec.run_signature_rows(chk, A)
     zmask_rule(chk)
     return chk.finish(
         level="other",
